@@ -7,10 +7,10 @@
    C11_decompose says the two coincide whenever pattern lints lie at or after the start of their chunk
    (`rel_ok`; C03_rebase_in_bounds), and C11_rebase_panics says what happens otherwise.  A `group` carries
    the configuration and the two rule maps; `g_with_cfg g c` swaps the configuration. *)
-From Coq Require Import List NArith Bool Permutation.
+From Coq Require Import List Arith NArith Bool Permutation Lia.
 Require Import Base Tables_rules.
 Require Import LintGroupCfg LintGroupCfgProofs LintGroupCfgJson C11History.
-Require Import C11Curated C11CuratedProofs.
+Require Import C11Curated C11CuratedProofs C11Cache C11CacheProofs.
 Import ListNotations.
 
 (* ---- the dispatch ---- *)
@@ -401,6 +401,115 @@ Check C11_new_curated_program :
      = run_tstmt g (TMerge curated_sub_proper_noun_capitalization_linters)).
 Print Assumptions C11_new_curated_program.
 
+(* ---- the dispatch WITH the chunk cache, on a long-lived LintGroup (joint statement with C05) ---- *)
+
+(* Model/C11Cache.v is LintGroup::lint with chunk_pattern_cache: key = (chunk_key d ch, cfg_hash config) where chunk_key
+   stands for (chunk characters, token hash); get -> clone on a hit; on a miss the enabled pattern rules, pull_by, put;
+   push_by for both.  The LRU may lose ANY entries before ANY lookup (evs: one keep-predicate per chunk of every
+   lint call), the rule maps are fixed, the configuration is replaced at will (HSetCfg).  Hypotheses, as in
+   C05_refinement: the configuration hash is injective on the configurations the history uses (hash_inj_on), and the
+   chunk component of the key determines what each pattern rule reports relative to the chunk start (rel_fun_on:
+   C05's rule_fun + token-hash injectivity).  Then on EVERY history from an empty cache, any two lint calls i, j
+   of a document d under configurations that agree on every switch but r answer exactly the cache-free
+   specification, and, r's own lints removed, the same lints in the same order: toggling r never changes the lints
+   of any r' <> r, warm cache or not, whatever was evicted in between.  (rel_ok d: no pattern lint of d before its
+   chunk start — C03; without it both calls panic alike, see run_hist_spec.) *)
+Theorem C11_toggle_warm_cache : forall (body doc chunk srule prule : Type) (chunks : doc -> list chunk) (chunk_start : chunk -> option nat)
+    (run_struct : srule -> doc -> list (glint body)) (run_pat : prule -> doc -> chunk -> list (glint body))
+    (CK HK : Type) (ck_eqb : CK -> CK -> bool) (hk_eqb : HK -> HK -> bool) (chunk_key : doc -> chunk -> CK)
+    (cfg_hash : config -> HK),
+  (forall a b : CK, ck_eqb a b = true -> a = b) ->
+  (forall a b : HK, hk_eqb a b = true -> a = b) ->
+  forall (g : group srule prule) (P : config -> Prop) (D : doc -> Prop),
+  hash_inj_on HK cfg_hash P ->
+  rel_fun_on body doc chunk srule prule chunks chunk_start run_pat CK chunk_key g D ->
+  forall (h : list (hop doc CK HK)) (cfg0 : config) (i j : nat) (ci cj : config) (d : doc) (r : key),
+  (forall c' : config, In (HSetCfg c') h -> P c') -> P cfg0 ->
+  (forall (d0 : doc) (evs : list (ckey CK HK -> bool)), In (HLint d0 evs) h -> D d0) ->
+  nth_error (trace doc CK HK h cfg0) i = Some (ci, d) ->
+  nth_error (trace doc CK HK h cfg0) j = Some (cj, d) ->
+  (forall k : key, k <> r -> is_rule_enabled ci k = is_rule_enabled cj k) ->
+  rel_ok chunks chunk_start run_pat g d ->
+  nth_error (run_hist body doc chunk srule prule chunks chunk_start run_struct run_pat CK HK ck_eqb hk_eqb chunk_key cfg_hash
+               g h cfg0 []) i
+    = Some (Ok (map snd (lint_tagged chunks chunk_start run_struct run_pat (g_with_cfg g ci) d))) /\
+  nth_error (run_hist body doc chunk srule prule chunks chunk_start run_struct run_pat CK HK ck_eqb hk_eqb chunk_key cfg_hash
+               g h cfg0 []) j
+    = Some (Ok (map snd (lint_tagged chunks chunk_start run_struct run_pat (g_with_cfg g cj) d))) /\
+  filter (not_tag body r) (lint_tagged chunks chunk_start run_struct run_pat (g_with_cfg g ci) d) =
+  filter (not_tag body r) (lint_tagged chunks chunk_start run_struct run_pat (g_with_cfg g cj) d).
+Proof. exact toggle_warm. Qed.
+Check C11_toggle_warm_cache : forall (body doc chunk srule prule : Type) (chunks : doc -> list chunk) (chunk_start : chunk -> option nat)
+    (run_struct : srule -> doc -> list (glint body)) (run_pat : prule -> doc -> chunk -> list (glint body))
+    (CK HK : Type) (ck_eqb : CK -> CK -> bool) (hk_eqb : HK -> HK -> bool) (chunk_key : doc -> chunk -> CK)
+    (cfg_hash : config -> HK),
+  (forall a b : CK, ck_eqb a b = true -> a = b) ->
+  (forall a b : HK, hk_eqb a b = true -> a = b) ->
+  forall (g : group srule prule) (P : config -> Prop) (D : doc -> Prop),
+  hash_inj_on HK cfg_hash P ->
+  rel_fun_on body doc chunk srule prule chunks chunk_start run_pat CK chunk_key g D ->
+  forall (h : list (hop doc CK HK)) (cfg0 : config) (i j : nat) (ci cj : config) (d : doc) (r : key),
+  (forall c' : config, In (HSetCfg c') h -> P c') -> P cfg0 ->
+  (forall (d0 : doc) (evs : list (ckey CK HK -> bool)), In (HLint d0 evs) h -> D d0) ->
+  nth_error (trace doc CK HK h cfg0) i = Some (ci, d) ->
+  nth_error (trace doc CK HK h cfg0) j = Some (cj, d) ->
+  (forall k : key, k <> r -> is_rule_enabled ci k = is_rule_enabled cj k) ->
+  rel_ok chunks chunk_start run_pat g d ->
+  nth_error (run_hist body doc chunk srule prule chunks chunk_start run_struct run_pat CK HK ck_eqb hk_eqb chunk_key cfg_hash
+               g h cfg0 []) i
+    = Some (Ok (map snd (lint_tagged chunks chunk_start run_struct run_pat (g_with_cfg g ci) d))) /\
+  nth_error (run_hist body doc chunk srule prule chunks chunk_start run_struct run_pat CK HK ck_eqb hk_eqb chunk_key cfg_hash
+               g h cfg0 []) j
+    = Some (Ok (map snd (lint_tagged chunks chunk_start run_struct run_pat (g_with_cfg g cj) d))) /\
+  filter (not_tag body r) (lint_tagged chunks chunk_start run_struct run_pat (g_with_cfg g ci) d) =
+  filter (not_tag body r) (lint_tagged chunks chunk_start run_struct run_pat (g_with_cfg g cj) d).
+Print Assumptions C11_toggle_warm_cache.
+
+(* ... with a hasher that separates sequences of Hasher::write calls (hash_calls, the model of impl Hash; injective
+   by C11_hash_separates) nothing is assumed about the hash: this is the instance the correspondence runs *)
+Theorem C11_toggle_warm_cache_calls : forall (body doc chunk srule prule : Type) (chunks : doc -> list chunk) (chunk_start : chunk -> option nat)
+    (run_struct : srule -> doc -> list (glint body)) (run_pat : prule -> doc -> chunk -> list (glint body))
+    (CK : Type) (ck_eqb : CK -> CK -> bool) (chunk_key : doc -> chunk -> CK)
+    (g : group srule prule) (D : doc -> Prop) (h : list (hop doc CK (list (list N)))) (cfg0 : config) (i j : nat)
+    (ci cj : config) (d : doc) (r : key),
+  (forall a b : CK, ck_eqb a b = true -> a = b) ->
+  rel_fun_on body doc chunk srule prule chunks chunk_start run_pat CK chunk_key g D ->
+  (forall d0 evs, In (HLint d0 evs) h -> D d0) ->
+  nth_error (trace doc CK (list (list N)) h cfg0) i = Some (ci, d) ->
+  nth_error (trace doc CK (list (list N)) h cfg0) j = Some (cj, d) ->
+  (forall k : key, k <> r -> is_rule_enabled ci k = is_rule_enabled cj k) ->
+  rel_ok chunks chunk_start run_pat g d ->
+  nth_error (run_hist body doc chunk srule prule chunks chunk_start run_struct run_pat CK (list (list N)) ck_eqb hk_eqb_calls chunk_key hash_calls
+               g h cfg0 []) i
+    = Some (Ok (map snd (lint_tagged chunks chunk_start run_struct run_pat (g_with_cfg g ci) d))) /\
+  nth_error (run_hist body doc chunk srule prule chunks chunk_start run_struct run_pat CK (list (list N)) ck_eqb hk_eqb_calls chunk_key hash_calls
+               g h cfg0 []) j
+    = Some (Ok (map snd (lint_tagged chunks chunk_start run_struct run_pat (g_with_cfg g cj) d))) /\
+  filter (not_tag body r) (lint_tagged chunks chunk_start run_struct run_pat (g_with_cfg g ci) d) =
+  filter (not_tag body r) (lint_tagged chunks chunk_start run_struct run_pat (g_with_cfg g cj) d).
+Proof. exact toggle_warm_calls. Qed.
+Check C11_toggle_warm_cache_calls : forall (body doc chunk srule prule : Type) (chunks : doc -> list chunk) (chunk_start : chunk -> option nat)
+    (run_struct : srule -> doc -> list (glint body)) (run_pat : prule -> doc -> chunk -> list (glint body))
+    (CK : Type) (ck_eqb : CK -> CK -> bool) (chunk_key : doc -> chunk -> CK)
+    (g : group srule prule) (D : doc -> Prop) (h : list (hop doc CK (list (list N)))) (cfg0 : config) (i j : nat)
+    (ci cj : config) (d : doc) (r : key),
+  (forall a b : CK, ck_eqb a b = true -> a = b) ->
+  rel_fun_on body doc chunk srule prule chunks chunk_start run_pat CK chunk_key g D ->
+  (forall d0 evs, In (HLint d0 evs) h -> D d0) ->
+  nth_error (trace doc CK (list (list N)) h cfg0) i = Some (ci, d) ->
+  nth_error (trace doc CK (list (list N)) h cfg0) j = Some (cj, d) ->
+  (forall k : key, k <> r -> is_rule_enabled ci k = is_rule_enabled cj k) ->
+  rel_ok chunks chunk_start run_pat g d ->
+  nth_error (run_hist body doc chunk srule prule chunks chunk_start run_struct run_pat CK (list (list N)) ck_eqb hk_eqb_calls chunk_key hash_calls
+               g h cfg0 []) i
+    = Some (Ok (map snd (lint_tagged chunks chunk_start run_struct run_pat (g_with_cfg g ci) d))) /\
+  nth_error (run_hist body doc chunk srule prule chunks chunk_start run_struct run_pat CK (list (list N)) ck_eqb hk_eqb_calls chunk_key hash_calls
+               g h cfg0 []) j
+    = Some (Ok (map snd (lint_tagged chunks chunk_start run_struct run_pat (g_with_cfg g cj) d))) /\
+  filter (not_tag body r) (lint_tagged chunks chunk_start run_struct run_pat (g_with_cfg g ci) d) =
+  filter (not_tag body r) (lint_tagged chunks chunk_start run_struct run_pat (g_with_cfg g cj) d).
+Print Assumptions C11_toggle_warm_cache_calls.
+
 (* a configuration survives a JSON round trip unchanged — ALL keys (any byte string, control characters,
    quotes and backslashes included), all three values *)
 Theorem C11_json_roundtrip : forall c : config, wf c -> parse_cfg (print_cfg c) = Some c.
@@ -510,8 +619,43 @@ Example C11_new_curated_program_nonvacuous :
   2 <= length proper_names /\ rev proper_names <> proper_names /\
   run_sub (adds (rev proper_names) ++ [RSetAll (Some true)]) = run_sub curated_sub_proper_noun_capitalization_linters.
 Proof.
-  split; [apply existsb_keqb; vm_compute; reflexivity|].
+  split; [apply (proj1 (existsb_keqb k_SpellCheck program_names)); vm_compute; reflexivity|].
   split; [vm_compute; reflexivity|]. split; [vm_compute; reflexivity|]. split; [vm_compute; reflexivity|].
   split; [vm_compute; reflexivity|]. split; [vm_compute; reflexivity|]. split; [vm_compute; reflexivity|].
   split; [apply Nat.leb_le; vm_compute; reflexivity|]. split; [vm_compute; discriminate|]. vm_compute; reflexivity.
+Qed.
+(* C11_toggle_warm_cache(_calls) on data: two documents; the chunk with key id 7 occurs in document 0 at offset 0 and in document 1 at offset 4; struct rule A,
+   pattern rule B (same lint relative to the chunk start in both places).  History: lint d0; A off; lint d1 (chunk 7 is a
+   HIT from d0's entry); A on; lint d1 with everything evicted before its second chunk; lint d1 (all hits).  The
+   hypotheses hold, the outputs are computed: B's lint (5,6) is the same in steps 1, 2, 3; A's comes and goes *)
+Definition exh_d0 : hdoc := (0, [(0, Some 0, 7)]).
+Definition exh_d1 : hdoc := (1, [(0, Some 0, 8); (1, Some 4, 7)]).
+Definition exh_g : hgroup :=
+  h_build [AStruct (ex_key [65]) [[mkglint (mkspan 0 1) 1]; [mkglint (mkspan 2 3) 1]];
+           APattern (ex_key [66]) [[[mkglint (mkspan 1 2) 2]]; [[]; [mkglint (mkspan 5 6) 2]]]].
+Definition exh_on : config := [(ex_key [65], Some true); (ex_key [66], Some true)].
+Definition exh_off : config := [(ex_key [65], Some false); (ex_key [66], Some true)].
+Definition exh_h : list (hop hdoc nat (list (list N))) :=
+  [HLint exh_d0 []; HSetCfg exh_off; HLint exh_d1 []; HSetCfg exh_on; HLint exh_d1 [fun _ => true; fun _ => false]; HLint exh_d1 []].
+Example C11_toggle_warm_nonvacuous :
+  rel_fun_on nat hdoc hchunk hsrule hprule h_chunks h_start h_run_pat nat h_key exh_g (fun d => In d [exh_d0; exh_d1]) /\
+  rel_ok h_chunks h_start h_run_pat exh_g exh_d1 /\
+  trace hdoc nat (list (list N)) exh_h exh_on = [(exh_on, exh_d0); (exh_off, exh_d1); (exh_on, exh_d1); (exh_on, exh_d1)] /\
+  run_hist nat hdoc hchunk hsrule hprule h_chunks h_start h_run_struct h_run_pat nat (list (list N)) Nat.eqb hk_eqb_calls
+    h_key hash_calls exh_g exh_h exh_on []
+  = [Ok [mkglint (mkspan 0 1) 1; mkglint (mkspan 1 2) 2];
+     Ok [mkglint (mkspan 5 6) 2];
+     Ok [mkglint (mkspan 2 3) 1; mkglint (mkspan 5 6) 2];
+     Ok [mkglint (mkspan 2 3) 1; mkglint (mkspan 5 6) 2]].
+Proof.
+  split; [|split; [|split]].
+  - intros d d' ch ch' st st' e Dd Dd' Hc Hc' Hk Hs Hs' He.
+    cbn in He. destruct He as [<-|[]].
+    destruct Dd as [<-|[<-|[]]]; destruct Dd' as [<-|[<-|[]]]; cbn in Hc, Hc';
+      repeat (destruct Hc as [<-|Hc]; [|try contradiction]); repeat (destruct Hc' as [<-|Hc']; [|try contradiction]);
+      cbn in Hk, Hs, Hs'; try discriminate; injection Hs as <-; injection Hs' as <-; vm_compute; reflexivity.
+  - intros e ch st l He Hch Hst Hl. cbn in He. destruct He as [<-|[]]. cbn in Hch.
+    destruct Hch as [<-|[<-|[]]]; cbn in Hst; injection Hst as <-; cbn in Hl; repeat (destruct Hl as [<-|Hl]; [cbn; lia|]); destruct Hl.
+  - vm_compute. reflexivity.
+  - vm_compute. reflexivity.
 Qed.
